@@ -81,13 +81,35 @@ def strip_framing(ops):
     return [o for o in ops if o[0] not in ("proto", "frame")]
 
 
-def walk(root):
-    """heap of the graph below `root`, as the pickler traverses it"""
+_BUILTIN_BASES = (list, tuple, set, frozenset, int, float, str, bytes, bytearray, BaseException)
+
+
+def attr_view(o):
+    """(via_new, head, rest, state, listitems, dictitems-flat) of an instance read off its ATTRIBUTES — type, `__dict__`, and
+    for dict subclasses the items — ignoring any `__reduce__` / `__reduce_ex__` / `__getstate__` the class defines.
+    For classes that define none of these it is exactly what the pickler sees.  None: no such view (C types, subclasses of
+    other builtins): the pickler's view is used."""
+    t = type(o)
+    if not (t.__flags__ & (1 << 9)) or isinstance(o, _BUILTIN_BASES) or not hasattr(o, "__dict__"):   # Py_TPFLAGS_HEAPTYPE
+        return None
+    d = o.__dict__
+    state = d if d else None
+    if isinstance(o, dict):
+        flat = []
+        for k, v in dict.items(o):
+            flat += [k, v]
+        return (False, t, (), state, [], flat)
+    return (True, t, (), state, [], [])
+
+
+def walk(root, view="pickler"):
+    """heap of the graph below `root`: view "pickler" = as the pickler traverses it (`__reduce_ex__(4)`); view "attrs" =
+    instances by `attr_view` where it exists.  info["custom_reduce"] lists the classes on which the two views differ."""
     import copyreg
     heap = []          # cells [tag, kids]
     ids = {}           # id(obj) -> ref
     keep = []          # every object whose id() was taken stays alive until the walk is over
-    info = {"setstate": [], "classes": {}, "dict_key_kinds": {}}
+    info = {"setstate": [], "classes": {}, "dict_key_kinds": {}, "custom_reduce": []}
     todo = []          # (cell index, list of child objects) to fill in
 
     def new(tag, kids=None):
@@ -167,6 +189,16 @@ def walk(root):
             if dictitems is not None:
                 for k, v in dictitems:
                     flat += [k, v]
+            av = attr_view(o)
+            if av is not None:
+                same = (av[0] == via_new and av[1] is head and len(rest) == 0 and av[3] is state and not items and
+                        len(av[5]) == len(flat) and all(x is y for x, y in zip(av[5], flat)))
+                if not same:
+                    if cname not in info["custom_reduce"]:
+                        info["custom_reduce"].append(cname)
+                    if view == "attrs":
+                        via_new, head, rest, state, items, flat = av
+                        keep.append(av)
             keep.append(items); keep.append(flat)
             r = new(["obj", via_new, state is not None, len(items)])
             todo.append((r, [head, rest] + ([state] if state is not None else []) + items + flat))
@@ -330,7 +362,14 @@ if __name__ == "__main__":
     out = {}
     if "--snapshot" in sys.argv:
         import snapshot
-        out["snapshot"] = snapshot.snap(obj)
+        try:
+            out["snapshot"] = snapshot.snap(obj)
+        except Exception as e:  # noqa — reported by the caller as "cannot be reloaded"; the graph is still walked
+            import traceback
+            out["snapshot_error"] = traceback.format_exc()[-500:]
     heap, root, info = walk(obj)
     out.update({"heap": heap, "root": root, "info": info})
+    if info["custom_reduce"] or "--attrs" in sys.argv:
+        h2, r2, _ = walk(obj, view="attrs")
+        out["attrs"] = {"heap": h2, "root": r2}
     print(json.dumps(out))
